@@ -2,6 +2,7 @@ package harness
 
 import (
 	"encoding/json"
+	"fmt"
 	"math"
 	"reflect"
 	"time"
@@ -45,7 +46,7 @@ var c12Entries = []string{"NewList", "NewListOf", "NewListFrom", "Add", "Insert"
 	"NewObject", "NewObjectFrom", "Set", "SetOverwrite", "ObjSetTF", "ObjSetTFNested",
 	"ListMap", "ListMapValues", "ListMapInts", "ListMapStrings", "ListMapFloats", "ListMapBools", "ListMapObjects", "ListMapLists", "ListMapAsync",
 	"ObjMap", "ObjMapValues", "ObjMapInts", "ObjMapStrings", "ObjMapFloats", "ObjMapBools", "ObjMapObjects", "ObjMapLists", "ObjMapAsync", "Direct",
-	"AddSpreadTwice", "SetSpreadTwice", "InsertTypedHost", "ReplaceTypedHost", "AddTypedHost", "SetTypedHost"}
+	"AddSpreadTwice", "SetSpreadTwice", "InsertTypedHost", "ReplaceTypedHost", "AddTypedHost", "SetTypedHost", "ListMapBig", "ListMapValuesBig"}
 
 var unsupportedTypes = []string{"time", "struct", "ptr", "slice_int8", "bytes", "map_string_int8", "map_int_string", "array", "complex", "uintptr", "chan", "func",
 	"jsonNumber", "namedint", "namedstring", "slice_uint", "slice_float32", "slice_slice_any", "map_string_slice_any", "slice_int64", "map_string_float32", "error",
@@ -714,6 +715,19 @@ func slotCheck(cont any, idx int, key string, want V, passedByRef any) error {
 	return nil
 }
 
+var c12BigList at.List
+
+// c12Big: a list of 320 ints that is only ever read.
+func c12Big() at.List {
+	if c12BigList == nil {
+		c12BigList = at.NewList()
+		for i := 0; i < 320; i++ {
+			c12BigList.Add(i)
+		}
+	}
+	return c12BigList
+}
+
 func CheckC12(c *C12Case, st *Stats) error {
 	want, supported := expectTV(c.Val)
 	x := toGo(c.Val)
@@ -828,6 +842,33 @@ func CheckC12(c *C12Case, st *Stats) error {
 		call = func() { cont = at.NewList(1).Map(func(int, any) any { return x }) }
 	case "ListMapValues":
 		call = func() { cont = at.NewList(1).MapValues(fn) }
+	case "ListMapBig":
+		// a Map over 320 elements whose callback returns the value for the first element only
+		call = func() {
+			cont = c12Big().Map(func(i int, y any) any {
+				if i == 0 {
+					return x
+				}
+				return y
+			})
+			if cont.(at.List).Count() != 320 {
+				panic(fmt.Sprintf("Map over 320 elements returned %d elements", cont.(at.List).Count()))
+			}
+		}
+	case "ListMapValuesBig":
+		call = func() {
+			first := true
+			cont = c12Big().MapValues(func(y any) any {
+				if first {
+					first = false
+					return x
+				}
+				return y
+			})
+			if cont.(at.List).Count() != 320 {
+				panic(fmt.Sprintf("MapValues over 320 elements returned %d elements", cont.(at.List).Count()))
+			}
+		}
 	case "ListMapInts":
 		call = func() { cont = at.NewList("s", 7).MapInts(func(int) any { return x }) }
 	case "ListMapStrings":
